@@ -95,6 +95,7 @@ class CFG:
         self._rd_in = None
         self._defs: List[Def] = []
         self._gen: Dict[int, List[int]] = {}
+        self._self_attrs: Set[str] = set()
 
     # ------------------------------------------------------------- construction
     def _new(self, kind, a) -> int:
@@ -466,6 +467,11 @@ class CFG:
                     for t in a.targets:
                         for nm in target_names(t):
                             self._add_def(Def(nm, "assign", a, t, a.value, n.id))
+                        # flow-sensitive view of `self.<attr> = value` inside one function
+                        for tt in (t.elts if isinstance(t, (ast.Tuple, ast.List)) else [t]):
+                            if isinstance(tt, ast.Attribute) and isinstance(tt.value, ast.Name) and tt.value.id == "self":
+                                self._add_def(Def("self." + tt.attr, "assign", a, tt if tt is t else t, a.value, n.id))
+                                self._self_attrs.add(tt.attr)
                 elif isinstance(a, ast.AugAssign):
                     for nm in target_names(a.target):
                         self._add_def(Def(nm, "augassign", a, a.target, a.value, n.id))
@@ -499,6 +505,8 @@ class CFG:
                     self._add_def(Def(a.name, "except", a, None, a.type, n.id))
             elif n.kind in ("test", "assert"):
                 self._walrus(a if n.kind == "test" else a.test, n.id)
+        for attr in sorted(self._self_attrs):
+            self._add_def(Def("self." + attr, "entry", self.func, None, None, self.entry))
 
     def _walrus(self, a, nid):
         if isinstance(a, (ast.FunctionDef, ast.AsyncFunctionDef, ast.ClassDef)):
